@@ -33,9 +33,9 @@ Section Peer.
   Hypothesis decI_app : forall iv a b, al a -> decI iv (a ++ b) = decI (decI iv a) b.
   Hypothesis decP_nil : forall iv, decP iv [] = [].
   Hypothesis decI_nil : forall iv, decI iv [] = iv.
-  Hypothesis decP_len : forall iv c, length (decP iv c) = length c.
+  Hypothesis decP_len : forall iv c, al c -> length (decP iv c) = length c.
   Hypothesis dec_enc : forall iv p, al p -> decP iv (fst (enc iv p)) = p /\ decI iv (fst (enc iv p)) = snd (enc iv p).
-  Hypothesis enc_len : forall iv p, length (fst (enc iv p)) = length p.
+  Hypothesis enc_len : forall iv p, al p -> length (fst (enc iv p)) = length p.
   Hypothesis enc_al : forall ts ms, al (encode ts ms) /\ (32 <= length (encode ts ms))%nat.
   Hypothesis decodeP_enc : forall ts ms, decodeP (encode ts ms) = ms.
   Hypothesis V_whole : forall ts ms, ms <> [] -> V (encode ts ms) = Some (Some ms).
@@ -114,7 +114,7 @@ Section Peer.
     intros Hn Hle.
     assert (Hal : al (firstn n c)) by (unfold ClientReasm.al; rewrite firstn_length, Nat.min_l by exact Hle; exact Hn).
     pose proof (decP_app iv (firstn n c) (skipn n c) Hal) as H. rewrite firstn_skipn in H. rewrite H.
-    assert (HL : length (decP iv (firstn n c)) = n) by (rewrite (decP_len iv (firstn n c)), firstn_length; apply Nat.min_l; exact Hle).
+    assert (HL : length (decP iv (firstn n c)) = n) by (rewrite (decP_len iv (firstn n c) Hal), firstn_length; apply Nat.min_l; exact Hle).
     rewrite firstn_app, HL, Nat.sub_diag, firstn_O, app_nil_r.
     symmetry. apply firstn_all2. rewrite HL. apply le_n.
   Qed.
@@ -122,8 +122,8 @@ Section Peer.
   Lemma reply_one iv ts ms : ms <> [] -> one_reply msg decP V iv (fst (enc iv (encode ts ms))).
   Proof.
     intro Hms. destruct (enc_al ts ms) as [Ha Hl]. destruct (dec_enc iv (encode ts ms) Ha) as [Hp _].
-    unfold one_reply. split; [unfold ClientReasm.al; rewrite enc_len; exact Ha|]. split.
-    - intros n Hn Hm. rewrite enc_len in Hn. rewrite firstn_decP by (rewrite ?enc_len; lia || exact Hm).
+    unfold one_reply. split; [unfold ClientReasm.al; rewrite enc_len by exact Ha; exact Ha|]. split.
+    - intros n Hn Hm. rewrite enc_len in Hn by exact Ha. rewrite firstn_decP by (rewrite ?enc_len by exact Ha; lia || exact Hm).
       rewrite Hp. apply V_prefix; assumption.
     - rewrite Hp, V_whole by exact Hms. discriminate.
   Qed.
@@ -133,8 +133,8 @@ Section Peer.
     destruct gp_bad as (Hl & Hv & H0).
     assert (Ha : al gp) by (unfold ClientReasm.al; rewrite Hl; reflexivity).
     destruct (dec_enc iv gp Ha) as [Hp _].
-    unfold one_reply. split; [unfold ClientReasm.al; rewrite enc_len, Hl; reflexivity|]. split.
-    - intros n Hn Hm. rewrite enc_len, Hl in Hn.
+    unfold one_reply. split; [unfold ClientReasm.al; rewrite enc_len, Hl by exact Ha; reflexivity|]. split.
+    - intros n Hn Hm. rewrite enc_len in Hn by exact Ha. rewrite Hl in Hn.
       assert (n = 0%nat). { destruct (Nat.eq_dec n 0); [assumption|]. pose proof (Nat.div_mod n 32 ltac:(discriminate)). rewrite Hm in *. lia. }
       subst n. cbn [firstn]. rewrite decP_nil. exact H0.
     - rewrite Hp, Hv. discriminate.
@@ -241,7 +241,7 @@ Section Peer.
       destruct (enc (p_enc p) (encode pts rep)) as [c e'] eqn:Er; cbn [fst] in Hp'.
       assert (Hc_c : c = fst (enc (p_enc p) (encode pts rep))) by (rewrite Er; reflexivity).
       destruct (enc_al pts rep) as [Harep Hlrep].
-      assert (Hlen_c : length c = length (encode pts rep)) by (rewrite Hc_c; apply enc_len).
+      assert (Hlen_c : length c = length (encode pts rep)) by (rewrite Hc_c; apply enc_len; exact Harep).
       assert (Hone : one_reply msg decP V (p_enc p) c) by (rewrite Hc_c; apply reply_one; apply reply_nonempty).
       assert (Hq : inflight (est msg pstate w2) = [c] ++ []) by (rewrite He2, Hp'; cbn [inflight]; rewrite Hin; reflexivity).
       pose proof (loop_inv maxlen fuel [c] [] [] s1 (p_enc p) c [] [] w2 (clock msg pstate w1 + recv_to)%Z j
@@ -266,7 +266,7 @@ Section Peer.
       destruct (enc (p_enc p) (encode pts rep)) as [c e'] eqn:Er; cbn [fst] in Hp'.
       assert (Hc_c : c = fst (enc (p_enc p) (encode pts rep))) by (rewrite Er; reflexivity).
       destruct (enc_al pts rep) as [Harep Hlrep].
-      assert (Hlen_c : length c = length (encode pts rep)) by (rewrite Hc_c; apply enc_len).
+      assert (Hlen_c : length c = length (encode pts rep)) by (rewrite Hc_c; apply enc_len; exact Harep).
       assert (Hone : one_reply msg decP V (p_enc p) c) by (rewrite Hc_c; apply reply_one; apply reply_nonempty).
       assert (Hq : inflight (est msg pstate w2) = [c] ++ []) by (rewrite He2, Hp'; cbn [inflight]; rewrite Hin; reflexivity).
       pose proof (loop_inv maxlen fuel [c] [] [] s1 (p_enc p) c [] [] w2 (clock msg pstate w1 + recv_to)%Z j
@@ -309,7 +309,7 @@ Section Peer.
       destruct (enc (p_enc p) gp) as [c1 e1] eqn:E1. destruct (enc e1 tail) as [c2 e2] eqn:E2. cbn [fst] in Hp'.
       destruct gp_bad as (Hlg & Hvg & _).
       assert (Hc_c : c1 = fst (enc (p_enc p) gp)) by (rewrite E1; reflexivity).
-      assert (Hlen_c : length c1 = 32%nat) by (rewrite Hc_c, enc_len; exact Hlg).
+      assert (Hlen_c : length c1 = 32%nat) by (rewrite Hc_c, enc_len; [exact Hlg|unfold ClientReasm.al; rewrite Hlg; reflexivity]).
       assert (Hone : one_reply msg decP V (p_enc p) c1) by (rewrite Hc_c; apply garbage_one).
       set (erest := if (length c2 =? 0)%nat then [] else [c2]) in *.
       assert (Hq : inflight (est msg pstate w2) = [c1] ++ erest) by (rewrite He2, Hp'; cbn [inflight]; rewrite Hin; reflexivity).
